@@ -119,12 +119,36 @@ pub fn tricky_strings() -> &'static Vec<String> {
         for w in [" x", "x ", "\tx", "x\t", "\u{3000}x", "x\u{3000}", "  ", "\u{3000}", " a b "] {
             v.push(w.to_string());
         }
+        // text that SPELLS an escape of some other notation (a reader or writer that "helpfully"
+        // normalises it changes the content), and line-break pairs
+        for w in ["&#65;", "Costs &#8364;5", "&#x41;", "&amp;", "&lt;b&gt;", "%41", "%E3%81%82", "\\u0041", "\\x41", "\\0", "\\t", "{0}", "%s", "$(x)", "a\r\nb", "\r\n", "\n\r", "a\rb"] {
+            v.push(w.to_string());
+        }
         // runs of characters that are ONE byte in Shift-JIS and THREE in UTF-8 (half-width
         // katakana): a buffer sized from the other encoding's length is too small for them
         v.push("ﾏｯﾌﾟﾃﾞｰﾀ".to_string());
         v.push("ｱｲｳｴｵｶｷｸｹｺ.bin".to_string());
         for n in [5usize, 16, 40, 100] {
             v.push("ｱ".repeat(n));
+        }
+        // Shift-JIS byte strings that are ALSO well-formed UTF-8 as a whole: a kanji with lead byte
+        // E0..EF and trail byte 80..BF followed by a half-width katakana A1..BF is a valid 3-byte
+        // UTF-8 sequence (the 2-byte class C2..DF + A1..BF is the half-width pairs above)
+        {
+            let mut seen_leads = std::collections::BTreeSet::new();
+            for ch in domain() {
+                let b = encode(&ch.to_string()).unwrap_or_default();
+                if b.len() == 2 && (0xE0..=0xEF).contains(&b[0]) && (0x80..=0xBF).contains(&b[1]) && seen_leads.insert(b[0]) {
+                    let cand = format!("{}ｱ", ch);
+                    if std::str::from_utf8(&encode(&cand).unwrap_or_default()).is_ok() {
+                        v.push(cand.clone());
+                        v.push(format!("MID_{}", cand));
+                        v.push(format!("{}{}", cand, cand));
+                    } else {
+                        seen_leads.remove(&b[0]);
+                    }
+                }
+            }
         }
         for c in class_representatives() {
             v.push(c.to_string());
@@ -155,6 +179,16 @@ pub fn collation_inversions() -> Vec<(String, String)> {
         }
     }
     v
+}
+
+/// Pairs of DISTINCT names that become equal under case folding (ASCII, full-width Latin, Greek,
+/// Cyrillic): a table keyed by a folded name loses one of them.
+pub fn case_pairs() -> Vec<(String, String)> {
+    [("Map01.cmp", "map01.cmp"), ("README.TXT", "Readme.txt"), ("Ａ", "ａ"), ("Ω", "ω"), ("Ж.bin", "ж.bin"), ("A", "a"), ("x_Ａb", "x_ａb")]
+        .iter()
+        .map(|(a, b)| (a.to_string(), b.to_string()))
+        .filter(|(a, b)| lossless(a) && lossless(b))
+        .collect()
 }
 
 /// Pairs (long, short) where `short` is a proper suffix of `long` as strings AND as Shift-JIS
